@@ -129,7 +129,11 @@ def compare(inp, out):
 
 # ---------------------------------------------------------------- degenerate but valid structures
 TOK = ["<mi>x</mi>", "<mi>y</mi>", "<mn>2</mn>", "<mn>13</mn>", "<mo>+</mo>", "<mo>=</mo>", "<mi>sin</mi>", "<mtext>if</mtext>", "<mo>-</mo>", "<mo>(</mo>", "<mo>)</mo>",
-       "<mo>&#x2032;</mo>", "<mo>.</mo>", "<mo>&#x2212;</mo>", "<mi>H</mi>", "<mi>Cl</mi>", "<mn>3.5</mn>", "<mo>,</mo>", "<mo>|</mo>", "<mo>!</mo>"]
+       "<mo>&#x2032;</mo>", "<mo>.</mo>", "<mo>&#x2212;</mo>", "<mi>H</mi>", "<mi>Cl</mi>", "<mn>3.5</mn>", "<mo>,</mo>", "<mo>|</mo>", "<mo>!</mo>",
+       # tokens that the clean-up merges with their neighbour (arc + trig name, consecutive letters, dots, bars, colons, primes):
+       # as positional children of 2-D elements they must stay two tokens
+       "<mi>arc</mi>", "<mo>arc</mo>", "<mi>cos</mi>", "<mi>tan</mi>", "<mi>a</mi>", "<mi>m</mi>", "<mo>:</mo>", "<mo>|</mo>", "<mo>&#x2026;</mo>", "<mo>'</mo>",
+       "<mn>%</mn>", "<mn>-</mn>", "<mn>&#x2212;&#xA0;%</mn>", "<mn>50%</mn>", "<mn>&#x2030;</mn>", "<mn>,</mn>", "<mn>.</mn>", "<mn>1 2</mn>", "<mi>&#xA0;</mi>", "<mo>&#x2062;</mo>"]
 EMPTY = ["<mglyph src='a.png'/>", "<mglyph src='a.png' alt='braid'/>", "<mglyph alt=' '/>", "<mi><mglyph src='b.png' alt='glyph'/></mi>",
          "<mrow/>", "<mrow></mrow>", "<mi></mi>", "<mtext></mtext>", "<none/>", "<mspace width='1em'/>", "<mphantom><mi>q</mi></mphantom>", "<mrow><mrow/></mrow>", "<mo></mo>",
          "<mtext>&#xA0;</mtext>", "<mstyle><mrow/></mstyle>"]
@@ -172,7 +176,8 @@ def degenerate(rng, depth=3):
             rows = "".join("<mtr>%s</mtr>" % "".join("<mtd>%s</mtd>" % arg(d - 1) for _ in range(rng.randint(1, 3))) for _ in range(rng.randint(1, 3)))
             return "<mtable>%s</mtable>" % rows
         if k == "semantics":
-            return "<semantics>%s<annotation encoding='application/x-tex'>x^2</annotation><annotation-xml encoding='MathML-Content'><ci>x</ci></annotation-xml></semantics>" % arg(d)
+            enc = rng.choice(["application/x-tex", "application/x-tex", "a b", "TeX &amp; co", "x=&quot;y&quot;", "&#xE9;t&#xE9;", "", "1st", "a/b/c", "x:y"])
+            return "<semantics>%s<annotation encoding='%s'>x^2</annotation><annotation-xml encoding='MathML-Content'><ci>x</ci></annotation-xml></semantics>" % (arg(d), enc)
         return tok()
     out = "<math>%s</math>" % "".join(arg(depth) for _ in range(rng.randint(1, 4)))
     if rng.random() < 0.35:
@@ -297,6 +302,29 @@ def merge_rows(rng):
     return "<math>%s</math>" % (wrap % body)
 
 
+WORDS = ["sin", "cos", "max", "min", "lim", "log", "time", "Velocity", "mass", "gcd", "arcsin", "det", "ab", "xyz", "sinh", "Re", "ker", "exp", "mod", "area"]
+VARIANTS = [None, None, None, "bold", "italic", "normal", "double-struck", "bold-italic", "script"]
+
+
+def letter_runs(rng):
+    """words and function names written one letter per <mi> (what many converters emit): the clean-up folds such runs into
+    one token.  Letters carry styles, colours, ids; other tokens stand in between; every letter must come out once, in order"""
+    def letters(w):
+        out = []
+        for ch in w:
+            v = rng.choice(VARIANTS) if rng.random() < 0.3 else None
+            extra = rng.choice(["", "", "", " mathcolor='red'", " id='L%d'" % rng.randint(0, 99), " mathsize='big'"])
+            out.append("<mi%s%s>%s</mi>" % ((" mathvariant='%s'" % v) if v else "", extra, ch))
+        return out
+    toks = []
+    for _ in range(rng.randint(1, 3)):
+        toks += letters(rng.choice(WORDS))
+        toks.append(rng.choice(["<mo>&#x2061;</mo>", "<mo>+</mo>", "<mn>2</mn>", "<mo>(</mo><mi>x</mi><mo>)</mo>", "<mtext>&#xA0;</mtext>", "<mo>=</mo>", ""]))
+    body = "".join(toks)
+    wrap = rng.choice(["<mrow>%s</mrow>", "%s", "<mfrac><mrow>%s</mrow><mn>2</mn></mfrac>", "<msqrt>%s</msqrt>", "<msub><mrow>%s</mrow><mi>k</mi></msub>"])
+    return "<math>%s</math>" % (wrap % body)
+
+
 # ---------------------------------------------------------------- the check
 KF_MFENCED = "mfenced-too-few-separators"
 
@@ -324,6 +352,7 @@ def corpus(res):
     bodies += [degenerate(rng, rng.randint(1, 3)) for _ in range(400 * n)]
     bodies += [merge_rows(rng) for _ in range(500 * n)]
     bodies += [mixed_tokens(rng) for _ in range(400 * n)]
+    bodies += [letter_runs(rng) for _ in range(200 * n)]
     return bodies
 
 
